@@ -12,6 +12,12 @@ CLAIMED = {
                 note="os.walk (E1) and os.path.join (E2) are assumed contracts; that os.walk lists the real descendants is not proved. The re-key block of Inotify.read_events is covered by C02's contracts.", ref="4/C14"),
     "C15": dict(text="Callback sequence of the three dispatch methods and the boolean match rule / sub-sequence / conflict rejection of patterns.py as postconditions over a ghost call log; PurePath.match and re are uninterpreted.",
                 note="E9 (matchers pure, uninterpreted), E10 (event dataclass). Agreement with pathlib's own matching and RegexMatchingEventHandler.__init__ are covered only by the bounded battery.", ref="4/C15"),
+    "C13": dict(text="Whole-view pre/postconditions (normal and exceptional) and the registry class invariant for schedule/unschedule/unschedule_all/_clear_emitters/add/remove_handler_for_watch/start, plus ObservedWatch identity (__init__/key/__eq__/__ne__/__hash__); induction over call sequences is Hoare-logic soundness.",
+                note="E7 (thread start/join), emitter constructor/start either raise or succeed (failure forked at both), emitter.stop() does not raise, builtin containers (E5). The class invariant is assumed on entry and proved on every exit.", ref="4/C13"),
+    "C04": dict(text="dispatch_events under the observer lock: with plain callbacks every handler registered for the event's watch is called exactly once and nobody else; with arbitrary re-entrant callbacks (registry havocked under the class invariant) at most once, only handlers of that watch, each registered at the instant of its call; queue_event queues the (event, watch) pair iff the filter admits it; every protected registry access has a lock-held obligation.",
+                note="Rely/guarantee over the observer RLock (E7); FIFO/no-loss of the queue is C16 + E6 and is not re-proved here; liveness not decided.", ref="4/C04"),
+    "C05": dict(text="Every callback is made in a lock hold in which membership was just established; unschedule/remove_handler_for_watch/unschedule_all/_remove_emitter/_clear_emitters postconditions (handler gone, emitter stopped and joined) are proved under the same lock; on_thread_stop reaches unschedule_all.",
+                note="Same trusted base as C04; that join() returns is liveness (C06).", ref="4/C05"),
 }
 
 NOT_APPLICABLE = {
